@@ -299,3 +299,75 @@ def run(chk, prog):
                    'the CompilerError is rendered through its Display implementation (which carries file and line)',
                    'rinklecate no longer prints the compiler error through Display: file name / line would be lost',
                    tool[0].loc(0))
+
+    # ---- (d) what the player hands to the library is the user's own text
+    RD = 'C20.input-handed-over-verbatim'
+    chk.rule(RD, 'The path given to Story::choose_path_string and the index given to Story::choose_choice_index derive from '
+             'the line read from standard input through parse_input, and on that lineage the text is only selected from '
+             '(trimmed, split, indexed, parsed) - never rewritten (case mapping, replacement): ink paths are '
+             'case-sensitive, so a rewritten path names other content than the library call with the same input.')
+    lt = Tracer(prog, transparent=lambda cs: True, use_summaries=False)
+    REWRITERS = ('to_lowercase', 'to_uppercase', 'to_ascii_lowercase', 'to_ascii_uppercase', 'make_ascii_lowercase',
+                 'make_ascii_uppercase', 'replace', 'replacen', 'replace_range', 'repeat', 'rev', 'escape_default',
+                 'escape_debug', 'escape_unicode', 'to_string_lossy', 'from_utf8_lossy', 'format', 'retain', 'remove',
+                 'truncate', 'insert', 'insert_str', 'push', 'push_str', 'filter', 'map', 'flat_map')
+
+    def rewrites(atoms):
+        return sorted(a[4:] for a in atoms if a.startswith('via:') and a.rsplit('::', 1)[-1] in REWRITERS)
+    pi = prog.fn('player::parse_input')
+    n_pay = 0
+    if chk.anchor(RD, 'player::parse_input', pi):
+        for bb, si, s in pi.stmts():
+            if s['k'] == 'assign' and s['rv']['k'] == 'agg' and s['rv'].get('var') in ('Divert', 'Choice'):
+                n_pay += 1
+                at = set()
+                for o in s['rv']['ops']:
+                    at |= lt.prov(pi, o)
+                rw = rewrites(at)
+                var = s['rv']['var']
+                if var == 'Choice':
+                    rw = [x for x in rw if not x.endswith(('lowercase', 'uppercase'))]   # digits have no case
+                chk.decide(RD, chk.key(RD, 'parse_input', var), 'arg:1' in at and not rw,
+                           'payload selected from the input text',
+                           'parse_input builds InputResult::%s from %s: what reaches the library is not the text the user '
+                           'typed' % (var, ('a rewritten copy of the input (%s)' % ', '.join(rw)) if rw else
+                                      'something other than its input'), pi.loc(bb, si))
+        chk.floor(RD, 'payload-carrying results built by parse_input', n_pay, 2)
+    n_calls = 0
+    for fn in prog.fns.values():
+        if fn.crate != 'rinklecate':
+            continue
+        for bb, t in fn.calls():
+            cs = callee_short(t)
+            if cs in ('Story::choose_path_string', 'Story::choose_choice_index'):
+                n_calls += 1
+                at = lt.prov(fn, t['args'][1])
+                rw = rewrites(at)
+                if cs.endswith('index'):
+                    rw = [x for x in rw if not x.endswith(('lowercase', 'uppercase'))]
+                chk.decide(RD, chk.key(RD, prog.root_fn(fn).short, cs), 'via:player::parse_input' in at and not rw,
+                           'argument is parse_input\'s payload, unrewritten',
+                           '%s passes %s an argument that %s' % (prog.root_fn(fn).short, cs, (
+                               'was rewritten on the way (%s)' % ', '.join(rw)) if rw else
+                               'does not come from parse_input'), fn.loc(bb))
+    chk.floor(RD, 'library choice calls in rinklecate', n_calls, 2)
+    # numbering: the number printed for a choice and the number accepted for it differ from the index by the same constant
+    pl_ = prog.fn('player::play')
+    if pi is not None and chk.anchor(RD, 'player::play', pl_):
+        shown = set()
+        for g in prog.with_closures(pl_):
+            for bb, si, s in g.stmts():
+                if s['k'] == 'assign' and s['rv']['k'] == 'binop' and s['rv']['op'].startswith('Add') \
+                        and s['rv']['b'].get('k') == 'const' and 'int' in s['rv']['b'] \
+                        and any('enumerate' in a.lower() for a in lt.prov(g, s['rv']['a'])):
+                    shown.add(s['rv']['b']['int'])
+        taken = set()
+        for bb, si, s in pi.stmts():
+            if s['k'] == 'assign' and s['rv']['k'] == 'binop' and s['rv']['op'].startswith('Sub') \
+                    and s['rv']['b'].get('k') == 'const' and 'int' in s['rv']['b'] \
+                    and any(a == 'via:str::parse' for a in lt.prov(pi, s['rv']['a'])):
+                taken.add(s['rv']['b']['int'])
+        chk.decide(RD, chk.key(RD, 'choice-numbering'), len(shown) == 1 and shown == taken,
+                   'choices are shown as index + %s and read back as number - %s' % (sorted(shown), sorted(taken)),
+                   'choice numbering disagrees: shown as index + %s, read back as number - %s: the number typed selects '
+                   'another choice than the one displayed beside it' % (sorted(shown), sorted(taken)), pi.loc(0))
